@@ -395,6 +395,33 @@ func (w *c19World) evReceive(from string, toMe bool, vec map[bpv7.EndpointID]flo
 	return fmt.Sprintf("rcv %s %s %d %s %s %s %s", w.cfg, c19Map(pre), me, from, c19Map(vec), c19Map(post), stored)
 }
 
+// evAdvertised: peer `from` advertises `vec1`, later `vec2` (both through the real NotifyNewBundle: summary vectors
+// addressed to this node), then a data bundle for `dest` is submitted with that peer connected. The gate has to
+// use what the peer advertises NOW (vec2): reported are the node's own values at that moment, vec2 and the peers
+// that were offered the bundle.
+func (w *c19World) evAdvertised(own map[bpv7.EndpointID]float64, from string, vec1, vec2 map[bpv7.EndpointID]float64,
+	dest string) (line string) {
+	defer c19Guard(&line, "adv")
+	w.setState(own, nil)
+	for k := range w.mocks {
+		if k != from {
+			w.disconnect(k)
+		}
+	}
+	w.connect(from)
+	for _, vec := range []map[bpv7.EndpointID]float64{vec1, vec2} {
+		b := w.metaBundle(from, c19Self, c19Copy(vec))
+		w.p.NotifyNewBundle(BundleDescriptor{Id: b.ID(), Receiver: bpv7.DtnNone(), Timestamp: time.Now(),
+			Constraints: map[Constraint]bool{}, Tags: map[Tag]struct{}{}, bndl: &b, store: w.c.store})
+	}
+	ownNow := w.own()
+	w.net.drain(false)
+	b := w.dataBundle(c19Self, dest, "")
+	w.c.SendBundle(&b)
+	_, chosen := w.drained()
+	return fmt.Sprintf("adv %s %s %s %s %s", c19Map(ownNow), from, c19Map(vec2), dest, c19Keys(chosen))
+}
+
 // ---- forwarding decisions ----
 
 type c19FwdCase struct {
@@ -987,6 +1014,20 @@ func TestVerifC19(t *testing.T) {
 					}
 				}
 			}
+		}
+		// what a peer advertised earlier and no longer advertises must not open the gate
+		for i := 0; i < 12; i++ {
+			hi, lo := 0.5+float64(r.intn(400))/1000, float64(r.intn(200))/1000
+			own := map[bpv7.EndpointID]float64{c19Eid("dd"): lo + 0.05, c19Eid("pa"): 0.3}
+			vec1 := map[bpv7.EndpointID]float64{c19Eid("dd"): hi, c19Eid("zz"): 0.2}
+			vec2 := map[bpv7.EndpointID]float64{c19Eid("zz"): 0.25}
+			switch i % 3 {
+			case 1:
+				vec2[c19Eid("dd")] = lo // still listed, but now lower than our own value
+			case 2:
+				vec1, vec2 = vec2, vec1 // the other way round: the peer became a better forwarder
+			}
+			fmt.Fprintln(out, w.evAdvertised(own, "pa", vec1, vec2, "dd"))
 		}
 		// metadata bundles are never forwarded by the rule (only directly delivered)
 		for i := 0; i < 6; i++ {
